@@ -72,6 +72,11 @@ type Stream struct {
 	// Contains frames waiting to be sent to the peer. Is emptied by AsyncFlush or Flush.
 	pendingFrames []*Frame
 
+	// True while an AsyncFlush is in flight. Flushes started in the meantime wait in flushWaiters and are completed by
+	// the flush in flight.
+	flushing     bool
+	flushWaiters []func(err error)
+
 	// Optional callback invoked when a control frame is received.
 	controlCallback ControlCallback
 
@@ -172,6 +177,8 @@ func (s *Stream) reset() {
 		s.pendingFrames[i] = nil
 	}
 	s.pendingFrames = s.pendingFrames[:0]
+	s.flushing = false
+	s.flushWaiters = nil
 }
 
 // Returns the stream through which IO is done.
@@ -736,22 +743,50 @@ func (s *Stream) Flush() (err error) {
 // Flush writes any pending control frames to the underlying stream asynchronously.
 //
 // This call does not block.
+//
+// Only one flush is in flight at a time: a flush started while another one has not completed yet (for example a write
+// started while the read path is still flushing a pong) is completed by the flush in flight, which also writes the
+// frames queued in the meantime. Starting a second transport write would overwrite the first one's buffer and
+// completion handler.
 func (s *Stream) AsyncFlush(callback func(err error)) {
 	if len(s.pendingFrames) == 0 {
 		callback(nil)
+	} else if s.flushing {
+		s.flushWaiters = append(s.flushWaiters, callback)
 	} else {
-		sent := s.pendingFrames[0]
-		s.pendingFrames = s.pendingFrames[1:]
+		s.flushing = true
+		s.asyncFlush(callback)
+	}
+}
 
-		s.codecConn.AsyncWriteNext(*sent, func(err error, _ int) {
-			s.releaseFrame(sent)
+func (s *Stream) asyncFlush(callback func(err error)) {
+	if len(s.pendingFrames) == 0 {
+		s.endFlush(nil, callback)
+		return
+	}
 
-			if err != nil {
-				callback(err)
-			} else {
-				s.AsyncFlush(callback)
-			}
-		})
+	sent := s.pendingFrames[0]
+	s.pendingFrames = s.pendingFrames[1:]
+
+	s.codecConn.AsyncWriteNext(*sent, func(err error, _ int) {
+		s.releaseFrame(sent)
+
+		if err != nil {
+			s.endFlush(err, callback)
+		} else {
+			s.asyncFlush(callback)
+		}
+	})
+}
+
+func (s *Stream) endFlush(err error, callback func(err error)) {
+	s.flushing = false
+	waiters := s.flushWaiters
+	s.flushWaiters = nil
+
+	callback(err)
+	for _, waiter := range waiters {
+		waiter(err)
 	}
 }
 
